@@ -570,7 +570,14 @@ class Visitor:
         value = safe_get_expression(node.value, parent=self.current, parse_strings=False)
 
         try:
-            docstring = self._get_docstring(ast_next(node), strict=True)
+            next_node = ast_next(node)
+            # The docstring of an attribute follows it in the same block: a string that opens
+            # the `else`, `except` or `finally` part coming after the block is something else.
+            same_block = any(
+                isinstance(block, list) and node in block and next_node in block
+                for _, block in ast.iter_fields(node.parent)  # type: ignore[attr-defined]
+            )
+            docstring = self._get_docstring(next_node, strict=True) if same_block else None
         except (LastNodeError, AttributeError):
             docstring = None
 
